@@ -91,6 +91,11 @@ where
             return Err(format!("{what}: decode of the encoding with {how} allocated {peak} bytes at peak for {} elements (bound {})", m.len(), bound(m.len())));
         }
     }
+    // and the honest encoding once more, after the rejected / altered ones
+    match catch_unwind(AssertUnwindSafe(|| T::decode(&enc))) {
+        Ok(Ok(b)) if *b == *v => {}
+        _ => return Err(format!("{what}: decode(encode(v)) != v when asked again after the altered encodings")),
+    }
     Ok(format!("ok:{}|{}", n, cks(&enc)))
 }
 
